@@ -266,6 +266,43 @@ def real_cell(cell):
         s.cleanup()
 
 
+def _drop_setid_caps():
+    """preexec: remove CAP_SETGID (6) and CAP_SETUID (7) from the bounding set - after exec, uid 0 can no longer change ids
+    (a container started with --cap-drop SETUID --cap-drop SETGID)."""
+    import ctypes
+    libc = ctypes.CDLL(None, use_errno=True)
+    for cap in (6, 7):
+        libc.prctl(24, cap, 0, 0, 0)          # PR_CAPBSET_DROP
+
+
+def nocap_cell(cell):
+    """The master cannot change ids at all: it must not run application code under the wrong identity - refusing to run is fine."""
+    wc, user, group = cell
+    uid, gid = uid_of(user), gid_of(group)
+    s = rp.Server(worker_class=wc, workers=1, bind="unix", graceful_timeout=2, timeout=5, extra={"user": user, "group": group},
+                  threads=2 if wc == "gthread" else None)
+    s.preexec_fn = _drop_setid_caps
+    os.chmod(s.dir, 0o755)
+    try:
+        started = s.start(attempts=1, wait=6.0)
+        if not started:
+            return None                       # "Worker failed to boot": the server refuses to run
+        r = None
+        try:
+            r = request_ids(s)
+        except OSError:
+            r = None
+        if r is None or r[0] is None:
+            return None
+        now_uid, now_gid, now_groups, at_import = eval("(" + r[0].replace("|", ",") + ")")
+        if tuple(now_uid) != (uid,) * 3 or tuple(now_gid) != (gid,) * 3:
+            return ("application-ran-with-wrong-ids:ids-cannot-be-changed", "the master lacks CAP_SETUID/CAP_SETGID; configured %r:%r, yet a request was served with uid %r gid %r "
+                    "instead of the server refusing to run" % (user, group, now_uid, now_gid))
+        return None
+    finally:
+        s.cleanup()
+
+
 def real_cells(thorough):
     cells = []
     base = [("www-data", "www-data", False), ("nobody", None, False), (None, "nogroup", False), (33, 65534, False), ("www-data", "nogroup", True)]
@@ -288,6 +325,10 @@ def run(ctx):
     for cell, v in zip(cred, cres):
         if v and v[0] not in viols:
             viols[v[0]] = violation("cred:" + v[0], v[1], {"part": "cred", "cell": list(cell)})
+    ncells = [(wc, "nobody", "nogroup") for wc in ("sync", "gthread", "gevent")]
+    for cell, v in zip(ncells, par.pmap(nocap_cell, ncells, jobs=3)):
+        if v and nocap_cell(cell):
+            viols.setdefault("real:" + v[0], violation("real:" + v[0], "worker=%s: %s" % (cell[0], v[1]), {"part": "nocap", "cell": list(cell)}))
     cells = real_cells(ctx.thorough)
     order = list(cells)
     random.Random(ctx.seed).shuffle(order)
@@ -315,7 +356,7 @@ def run(ctx):
                 "cell; non-trivial = an identity is configured" % (len(USERS), len(GROUPS)),
         "samples": [{"cred": ["www-data", "nogroup", True]}, {"real": ["gevent", "nobody", None, False, "hup-adds-identity"]}],
         "exhaustive": True,
-        "credential_cells": len(cred), "real_cells": len(cells), "real_unconfirmed": unconfirmed, "real_infrastructure_failures": infra,
+        "credential_cells": len(cred), "real_cells": len(cells) + len(ncells), "real_unconfirmed": unconfirmed, "real_infrastructure_failures": infra,
     }
     return Result("exploration", cov, list(viols.values()),
                   ["runs as root (uid 0) so that privilege dropping is observable on the real kernel",
@@ -324,6 +365,9 @@ def run(ctx):
 
 
 def replay(case):
+    if case["part"] == "nocap":
+        v = nocap_cell(tuple(case["cell"]))
+        return violation("real:" + v[0], v[1], case) if v else None
     if case["part"] == "cred":
         c = case["cell"]
         v = cred_cell(tuple(c))
